@@ -118,6 +118,13 @@ def zeros (n : Nat) : List Nat := List.replicate n 0
 
 /-! ### inject_object -/
 
+/-- the mutations of the output section: alignment raised, zero padding and the piece appended -/
+def appendPiece (inp : Section) (pad : Nat) (s : Section) : Section :=
+  { s with alignment := max s.alignment inp.alignment, data := s.data ++ zeros pad ++ inp.data }
+
+/-- `section.address = a` -/
+def setAddress (a : Nat) (s : Section) : Section := { s with address := a }
+
 /-- body of the section loop of `inject_object`; returns the new section list and
     the offset recorded in `section_offsets`. -/
 def injectSection (secs : List Section) (inp : Section) : Except Err (List Section × Nat) :=
@@ -126,10 +133,7 @@ def injectSection (secs : List Section) (inp : Section) : Except Err (List Secti
   if inp.alignment = 0 then .error .ZeroDivisionError          -- `size % 0`
   else
     let pad := padLen out.data.length inp.alignment
-    .ok (updSec secs1 inp.name (fun s =>
-          { s with alignment := max s.alignment inp.alignment,
-                   data := s.data ++ zeros pad ++ inp.data }),
-         out.data.length + pad)
+    .ok (updSec secs1 inp.name (appendPiece inp pad), out.data.length + pad)
 
 /-- the section loop; offsets are listed in input order -/
 def injectSections : List Section → List Section → Except Err (List Section × List (String × Nat))
@@ -164,9 +168,11 @@ def injectSymbol (syms : List Symbol) (name : String) (b : Binding) (sect : Opti
   | .error e => .error e
   | .ok syms' => .ok (syms', syms.length)
 
-/-- `new_symbol.value = value; new_symbol.section = section` on the global called `n` -/
+/-- `new_symbol.value = value; new_symbol.section = section` on the (undefined) global called `n`.
+    Python mutates the one object `symbol_map[n]`, which `merge_global_symbol` has just found to be
+    undefined; global names are unique in the table, so "every undefined global called `n`" is that object. -/
 def defineGlobal (syms : List Symbol) (n : String) (sect : Option String) (v : Nat) : List Symbol :=
-  syms.map (fun s => if s.isGlobal && s.name == n then { s with value := some v, sect := sect } else s)
+  syms.map (fun s => if s.isGlobal && s.name == n && s.value.isNone then { s with value := some v, sect := sect } else s)
 
 /-- `Linker.merge_global_symbol` -/
 def mergeGlobal (syms : List Symbol) (name : String) (sect : Option String) (value : Option Nat)
@@ -339,7 +345,7 @@ def layoutInput (st : LState) : MemInput → Except Err LState
     if sec.alignment = 0 then .error .ZeroDivisionError
     else
       let a := alignUp st.cur sec.alignment
-      .ok { st with secs := updSec secs1 n (fun s => { s with address := a }),
+      .ok { st with secs := updSec secs1 n (setAddress a),
                     cur := a + sec.data.length, placed := st.placed ++ [n] }
   | .sectData n =>
     let nn := dollarName n
